@@ -191,6 +191,14 @@ type Env[T any] struct {
 	V     T      `json:"v"`
 }
 
+// FullS has a field tagged with the name of the embedded struct type that follows it: the body key "EBase" is the
+// tagged field's (encoding/json never uses an untagged embedded struct's own name)
+type FullS struct {
+	B string `json:"EBase" validate:"min=3"`
+	EBase
+	Note string `json:"note" validate:"max=4"`
+}
+
 // FullV has a Validate() method of its own (interface strategy, and WithRunAll together with tags).
 type FullV struct {
 	Email string `json:"email" validate:"required,email"`
@@ -213,6 +221,7 @@ func (f *FullV) Validate() error {
 
 var namedTypes = map[string]reflect.Type{
 	"FullV": reflect.TypeOf(FullV{}),
+	"FullS": reflect.TypeOf(FullS{}),
 	"FullE": reflect.TypeOf(FullE{}),
 	"FullU": reflect.TypeOf(FullU{}),
 	"FullG": reflect.TypeOf(Env[FullInner]{}),
@@ -781,7 +790,7 @@ func genCase(r *hx.Rand, tier string) caseT {
 	switch r.Intn(10) {
 	case 0, 1: // full mode on a compiled named type
 		c.Mode = 1
-		c.Named = hx.Pick(r, []string{"FullA", "FullB", "FullC", "FullE", "FullU", "FullG"})
+		c.Named = hx.Pick(r, []string{"FullA", "FullB", "FullC", "FullE", "FullU", "FullG", "FullS"})
 		t := describe(namedTypes[c.Named])
 		b, _ := json.Marshal(genObject(r, t, 0))
 		c.Body = string(b)
@@ -803,7 +812,7 @@ func genCase(r *hx.Rand, tier string) caseT {
 		c.Body = string(b)
 	case 4:
 		if r.Chance(1, 2) { // partial mode on a compiled type (embedded structs of exported and unexported types)
-			c.Named = hx.Pick(r, []string{"FullE", "FullU", "FullA"})
+			c.Named = hx.Pick(r, []string{"FullE", "FullU", "FullA", "FullS"})
 			b, _ := json.Marshal(genObject(r, describe(namedTypes[c.Named]), 0))
 			c.Body = string(b)
 			break
@@ -2401,6 +2410,8 @@ func fixedCases() []caseT {
 		{Body: `{"user":{"name":"xy"}}`, T: &TypeT{Fields: []FieldT{{JSON: "user", Kind: "struct", Sub: &TypeT{Fields: []FieldT{{JSON: "name", Kind: "string", Tag: "required,min=3"}}}}}}, Mode: 1, Auto: true, Interfere: 7}, // nested-only tags under Auto, after a call with a per-call schema
 		{Body: `{"user":{"name":"xy"},"a":"q"}`, T: userT, Mapper: true, Redact: []string{"a"}},                                                                                                                      // mapper + redactor in partial mode
 		{Body: `{"email":"x","age":9}`, Named: "FullA", Mode: 1, MaxErrors: 2, Custom: 7},                                                                                                                          // custom validator returning an Error value
+		{Body: `{"EBase":"x","id":"y","note":"toolong"}`, Named: "FullS", Mode: 0},                       // K05m: a field tagged with the name of a later embedded struct
+		{Body: `{"EBase":"x","id":"y"}`, Named: "FullS", Mode: 1, Redact: []string{"id"}},               // … full mode, the redaction walk still enters the embedded struct
 		{Body: `{"a":"q"}`, T: userT, ViaApp: true, BOM: true}, // a byte order mark in front of a PATCH body
 		{Body: `{"user":{"name":"xy"},"a":"q"}`, T: userT, Load: 1001},                       // 1001 other validations in flight on the same Validator
 		{Body: `{"email":"x","age":9,"nerr":1}`, Named: "FullV", Mode: 2, Load: 1001, Pkg: true},
